@@ -41,7 +41,7 @@ func stringDemuxFunc(x []byte) (string, []byte, error) {
 		return "", nil, errors.Errorf("stringmux: could not read message")
 	}
 	x = x[n:]
-	if len(x) < int(chanLength) {
+	if uint64(len(x)) < chanLength {
 		return "", nil, errors.Errorf("stringmux: length smaller than message")
 	}
 	chanBytes := x[:chanLength]
